@@ -569,7 +569,57 @@ fn bounded_case(rng: &mut Rng, rep: &mut Report, replay: &serde_json::Value, tho
   }
 }
 
+/// ord refuses to build properties that compress better than 30:1 and refuses
+/// to expand a field beyond 30 x its compressed size: walk galleries of
+/// growing size through that boundary and require that everything ord agrees
+/// to build also reads back.
+fn ratio_boundary_sweep(rep: &mut Report, replay: &serde_json::Value, seed: u64) {
+  let txid = Txid::from_byte_array([(seed % 251) as u8; 32]);
+  let gallery = |n: usize| Properties {
+    gallery: (0..n).map(|i| Item { id: Some(InscriptionId { txid, index: (i % 3) as u32 }), attributes: Attributes { title: Some("the same title again".into()), traits: Traits::default() }, index: None }).collect(),
+    attributes: Attributes::default(),
+    txids: Vec::new(),
+  };
+  let builds = |n: usize| catch(|| Inscription::new(Chain::Regtest, true, None, None, None, Vec::new(), None, None, gallery(n), None));
+  // largest n that ord still builds (the ratio grows with n)
+  let (mut lo, mut hi) = (1usize, 4096usize);
+  if !matches!(builds(lo), Ok(Ok(_))) || matches!(builds(hi), Ok(Ok(_))) {
+    rep.observe("ratio sweep: boundary not bracketed".to_string());
+    return;
+  }
+  while hi - lo > 1 {
+    let mid = (lo + hi) / 2;
+    if matches!(builds(mid), Ok(Ok(_))) { lo = mid } else { hi = mid }
+  }
+  rep.max("max_ratio_sweep_largest_gallery_built", lo as u64);
+  for n in lo.saturating_sub(12).max(1)..=lo + 2 {
+    rep.eval();
+    let p = gallery(n);
+    match builds(n) {
+      Err(panic) => rep.violation(&format!("C28/new/panic/{}", panic_signature(&panic)), panic, replay.clone()),
+      Ok(Err(_)) => rep.count("ratio_sweep_refused"),
+      Ok(Ok(i)) => {
+        let q = i.verif_properties();
+        let raw = i.properties.as_ref().map(|b| b.len()).unwrap_or(0);
+        let inline = p.verif_to_inline_cbor().map(|b| b.len()).unwrap_or(0);
+        if q == p {
+          rep.count("ratio_sweep_roundtrip_ok");
+        } else {
+          rep.violation(
+            "C28/new/roundtrip-differs/at-the-compression-ratio-limit",
+            format!("gallery of {n} items: ord built a {} field of {raw} bytes (encoding {:?}) for {inline} bytes of inline CBOR, and reads back {} items", if i.property_encoding.is_some() { "compressed" } else { "plain" }, i.property_encoding.as_ref().map(|e| String::from_utf8_lossy(e).to_string()), q.gallery.len()),
+            replay.clone(),
+          );
+        }
+      }
+    }
+  }
+}
+
 pub fn run(ctx: &Ctx, rep: &mut Report) {
+  if ctx.deterministic_part() || ctx.shard % 4 == 1 {
+    ratio_boundary_sweep(rep, &ctx.replay_info(u64::MAX), ctx.seed + ctx.shard);
+  }
   for case in ctx.cases(u64::MAX) {
     let mut rng = ctx.rng(case);
     let replay = ctx.replay_info(case);
